@@ -113,7 +113,7 @@ func runFlags(t *simrt.Tape, keep bool) simrt.Outcome {
 			n := []int{1, 2, 3, 7, 10, 50, 100, 999, 1000, 12345, 1 + t.Choose(1000000), 1 + t.Choose(1<<30)}[t.Choose(12)]
 			var text string
 			per := time.Second
-			switch t.Choose(4) {
+			switch t.Choose(5) % 4 {
 			case 0:
 				text = strconv.Itoa(n) // no unit: one second
 			case 1:
@@ -124,7 +124,12 @@ func runFlags(t *simrt.Tape, keep bool) simrt.Outcome {
 				k := 1 + t.Choose(500)
 				text, per = fmt.Sprintf("%d/%d%s", n, k, u.s), time.Duration(k)*u.d
 			case 3:
-				text, per = fmt.Sprintf("%d/1h30m", n), 90*time.Minute
+				forms := []struct {
+					s string
+					d time.Duration
+				}{{"1h30m", 90 * time.Minute}, {"0.5s", 500 * time.Millisecond}, {".5s", 500 * time.Millisecond}, {".25m", 15 * time.Second}, {"1.5ms", 1500 * time.Microsecond}, {"2m0.5s", 120500 * time.Millisecond}}
+				f := forms[t.Choose(len(forms))]
+				text, per = fmt.Sprintf("%d/%s", n, f.s), f.d
 			}
 			rate, _, _, _, _, _, err := attackFlagValues("-rate=" + text)
 			sample["flag"], sample["value"] = "rate", text
